@@ -2206,9 +2206,6 @@ class Interp:
             g_ = fn.args[0]
             if g_ == "numpy.negative":
                 return T("unop", "USub", args[0])
-            if g_ == "numpy.flatnonzero":
-                return tm.sub(tm.call(tm.glob("numpy.where"), (args[0],), ()),
-                              const(0))
             if g_ == "numpy.nonzero":
                 fn = tm.glob("numpy.where")
             if g_ == "numpy.identity":
